@@ -167,13 +167,15 @@ CLAIMED = {
         "processed separators, index-form slot updates); (3) no a>p / e>p sentinel survives without a following pipe (error). SubprocSpec.resolve_redirects (a stage's own redirects, applied in "
         "order through the real setters, loop invariants): on a normal return every stream was named by at most one redirect and holds exactly that one. The three setters on "
         "their own: first non-None store wins, a second one raises XonshError IFF both are non-None, changes nothing and closes the rejected "
-        "handle. Enum (complete): all 50 redirect spellings of the real tokenizer tables through the real parser (one redirect token, target "
+        "handle. _redirect_streams (operator tables as ghost sets, safe_open through its contract): pipe / merge operators open nothing and return exactly their marks; a file redirect opens exactly its target, once, in the operator's "
+        "mode; an input redirect sets stdin only, an stdout / stderr redirect that stream only, and a both-streams redirect gives both streams the SAME handle. safe_open opens exactly the file named, once, in the mode asked, and turns "
+        "every failure (permission, missing directory, anything else) into a XonshError. Enum (complete): all 50 redirect spellings of the real tokenizer tables through the real parser (one redirect token, target "
         "taken iff one-sided) and the real _redirect_streams decode to the class their stream names denote - all spellings of a class agree, and a both-streams class hands both streams ONE shared handle (two opens of the same target would overwrite each other). "
         "Bounded stand-in (not counted as proved): real cmds_to_specs on every pipeline of <= 3 (thorough 4) stages x 9 redirect forms x trailing &.",
    note="Unverified: that the OS delivers bytes written to an fd to the file / pipe behind it; SubprocSpec.build as a whole (alias resolution, decorators; resolve_redirects "
-        "is verified, _redirect_streams is a ghost function there and checked by the spelling enum), the capture "
+        "is verified with _redirect_streams as a ghost function; _redirect_streams is verified with the operator TABLES as ghost sets - their content is what the spelling enum checks), the capture "
         "boundary / _update_last_spec (C06), alias-side handle resolution (ProcProxyThread._get_handles, _pick_buf), stage kinds other than "
-        "external `echo` in the bounded check, missing target files (safe_open's three error branches). ASSUMED for (2): no stage leaves build "
+        "external `echo` in the bounded check. ASSUMED for (2): no stage leaves build "
         "with both pipe sentinels (each sets stderr; the second store is rejected by the setter). Trusted: pyvc engine + object-record model "
         "(an object belongs to one list slot) + z3/cvc5.",
    design="§3 C07"),
